@@ -117,7 +117,7 @@ fn check_nopanic(s: &str, acc: &mut Acc) {
 }
 
 pub fn run(ctx: &Ctx) -> i32 {
-    let names: Vec<String> = strings(&["a", "1", "-", "."], 1, 3).into_iter().filter(|s| !s.starts_with('-')).collect();
+    let names: Vec<String> = strings(&["a", "1", "-", "."], 1, if ctx.thorough() { 4 } else { 3 }).into_iter().filter(|s| !s.starts_with('-')).collect();
     let epochs = ["", "0", "1", "12", "00", "01", "2147483647", "2147483648", "4294967295"];
     let vers = strings(&["1", "a", "."], 1, 2);
     let rels = strings(&["1", "a", "."], 1, 2);
@@ -207,7 +207,7 @@ pub fn run(ctx: &Ctx) -> i32 {
     let s3 = SubReport::new("compression", "A", "all five CompressionType values through Display then FromStr", c);
 
     let alpha = ["a", "1", "-", ".", ":"];
-    let l = if ctx.thorough() { 8 } else { 6 };
+    let l = if ctx.thorough() { 10 } else { 6 };
     let nn = strings_count(alpha.len(), l);
     let d = merge(par_fold(nn, Acc::new, |i, acc| {
         let mut t = vec![];
